@@ -182,6 +182,7 @@ def required_cells(tier):
         "api:compute_dynamics:all": 50, "api:compute_dynamics:final": 50,
         "api:with_field:all": 50, "api:with_field:final": 50,
         "api:gradient:all": 50, "api:gradient:final": 50,
+        "api:state_gradient": 10,
         "api:pttebd": 10, "e2e:m<=30": 500, "e2e:m>30": 4,
         "e2e:quotient-below-integer": 20,
         "pttempo-refuses-n<2": 4, "tebd:query-between-computes": 2,
@@ -771,6 +772,20 @@ def _e2e_point(book, dt, start, end, n, m, tag, apis, shortcut):
                                   ra, det)
             worst = max(worst, _check_states(book, api, model, dyn.states,
                                              steps, start, dt, det))
+            if ra and m % 2 == 1:
+                # the front end of the same routine
+                res = oqupy.state_gradient(
+                    psys, RHO0, RHO1.T, [pt],
+                    model.half_step_parameters(length), start_time=start,
+                    progress_type="silent")
+                book.cell("api:state_gradient")
+                steps = _check_labels(book, "gradient:all",
+                                      res["dynamics"].times, start, dt,
+                                      length, True,
+                                      dict(det, front_end="state_gradient"))
+                worst = max(worst, _check_states(
+                    book, "gradient:all", model, res["dynamics"].states,
+                    steps, start, dt, det))
     # -- an (infinite) TrivialProcessTensor next to the real one, in either
     #    order: the length is still that of the finite process tensor
     if "compute_dynamics" in apis and m % 2 == 0:
